@@ -18,6 +18,7 @@ import (
 
 	"verif/harness/evd"
 	"verif/harness/rig"
+	"verif/harness/seam"
 )
 
 // TestC14svc: the subscription-expiry clause of C14 through the real, long-lived
@@ -36,7 +37,7 @@ func TestC14svc(t *testing.T) {
 	col := evd.New("C14", cfg)
 	defer col.Flush()
 	n := cfg.N(48, 1200)
-	var checks, expired, keptAlive int64
+	var checks, expired, keptAlive, svcFaults int64
 	for i := 0; i < n; i++ {
 		seed := cfg.CaseSeed("C14svc", i)
 		if !cfg.Want(i, seed) {
@@ -96,6 +97,14 @@ func TestC14svc(t *testing.T) {
 				subs = append(subs, s)
 			}
 			allowance := time.Duration(k+2)*(set.Interval+set.Fuzz) + 5*time.Second
+			// in a third of the cases one statement of the service fails at some point
+			// (a storage error): that sweep is lost, the service carries on
+			faultAt := -1
+			if r.Intn(3) == 0 {
+				faultAt = r.Intn(200)
+				allowance += 2 * (set.Interval + set.Fuzz)
+			}
+			stepNo := 0
 			viol := func(sig, f string, a ...any) {
 				col.Violation("service:"+sig, fmt.Sprintf("[interval=%v batch=%d, %d subscriptions] ", set.Interval, set.MaxDelete, k)+fmt.Sprintf(f, a...),
 					map[string]any{"case_seed": seed, "settings": fmt.Sprintf("%+v", set)})
@@ -103,6 +112,11 @@ func TestC14svc(t *testing.T) {
 			step := 7 * time.Second
 			horizon := time.Now().Add(35 * time.Minute)
 			for time.Now().Before(horizon) {
+				if stepNo == faultAt {
+					seam.C.ResetCounts()
+					seam.C.SetFault(&seam.Fault{Actor: "svc", K: 1 + r.Intn(6), Mode: seam.FaultError})
+				}
+				stepNo++
 				time.Sleep(step)
 				rig.Quiesce()
 				now := time.Now()
@@ -148,6 +162,12 @@ func TestC14svc(t *testing.T) {
 					}
 				}
 			}
+			if faultAt >= 0 {
+				if seam.C.FaultHits() > 0 {
+					svcFaults++
+				}
+				seam.C.SetFault(nil)
+			}
 			var plan []string
 			for _, s := range subs {
 				plan = append(plan, fmt.Sprintf("%s/%v", s.plan, s.ttl))
@@ -164,6 +184,7 @@ func TestC14svc(t *testing.T) {
 		})
 	}
 	col.Add("ev_liveness_checks", checks)
+	col.Add("ev_storage_errors_injected_into_the_service", svcFaults)
 	col.Add("ev_subscriptions_expired_by_the_service", expired)
 	col.Add("ev_empty_pulls_that_restarted_the_clock", keptAlive)
 	col.Add("relevant_events", expired+keptAlive)
